@@ -897,7 +897,7 @@ defprop("C09", "other", {"R", "E", "X", "A"}, c09_cases, oracle=oracles.o_entiti
         rule="cycles of length 1..32 from text / attribute / attribute inside an entity, fan-out f x depth d families, chains, many top-level references, random entity graphs",
         nontrivial=lambda c, l: True,
         technique="Coq proof of the loop detector state machine (sound + complete) + correspondence")
-defprop("C10", "other", None, c10_cases, oracle=oracles.o_total, extra=c10_extra,
+defprop("C10", "proof", None, c10_cases, oracle=oracles.o_total, extra=c10_extra,
         rule="every battery (links, axes, iterators with all F/B words <= 4 and nth/len scripts, lookups, identity, text_pos_at for offsets 0..len+2, Debug/Display into a sink) on enumerated and random documents",
         technique="Coq model of the read API (panic sites explicit) + correspondence + isolated scale runs")
 defprop("C11", "proof", {"R", "N", "AX", "AE", "AH", "AT", "AR", "D"}, lambda t, s: api_docs(t, s, "ncad"), oracle=oracles.o_navigation,
